@@ -436,6 +436,11 @@ def check(ctx, rep):
 
     # sites skipped because a shared specification was consumed are fixed by the *second* run: not a fixed point
     rule_args_info_fresh(ctx, rep)
+    from .c12 import rule_merge_op
+
+    # a second run over the first run's output must find nothing left: result sets of scan batches / result files are combined with the
+    # lossless merge, never with dict.update (each rule would keep only its last batch, and the next run fixes the rest)
+    rule_merge_op(ctx, rep)
     rep.not_covered += [
         "fixed point for arbitrary programs and for codemods without a rule of their own (beyond the table rule)",
         "codemods listed as not-modelled: " + ", ".join(sorted(NOT_MODELLED)),
